@@ -18,6 +18,7 @@
 #include "alloc.h"
 #include "ref_codec.h"
 #include "st_codecs.h"
+#include "hugestr.h"
 #include "early_battery.h"
 
 using vf::Ctx;
@@ -454,6 +455,59 @@ static void build(vf::Plan &plan, const vf::Opts &o)
         plan.stage("b64:0..15-groups x pad{0,1,2} x (valid|one-defect-at-each-position)", 16 * 3 * 6 * 60,
                    [mk](uint64_t i, Ctx &c) { check_input(c, B64, mk(i)); }, [mk](uint64_t i) { return desc(mk(i)); });
     }
+    // ---- a text of 2^32 characters (decoded sizes beyond 2^31): size queries, capacity checks and, in the thorough tier, the
+    // complete decode.  The text's block shares a 16 MiB window of real memory filled with '0', a character of both alphabets.
+#ifndef VF_ASAN
+    if (!reduced) {
+        const bool full = o.thorough();
+        auto &st = plan.stage(strf("huge text: 2^32 and 2^32+4 characters '0': size query, capacity one short, %s", full ? "complete decode into an exact-fit buffer" : "exact capacity for the 2^32+4 tail check"),
+                              2,
+                              [full](uint64_t i, Ctx &c) {
+                                  const size_t L = (size_t(1) << 32) + (i ? 4 : 0);
+                                  vf::Outcome o = vf::guard([&] {
+                                      hugestr::Scope scope(true);
+                                      ST::char_buffer cb;
+                                      cb.allocate(L);
+                                      memset(cb.data(), '0', vf::AllocState::ALIAS_WINDOW < L ? vf::AllocState::ALIAS_WINDOW : L);
+                                      if (i) memset(cb.data() + (size_t(1) << 32), '0', 4);  // the private tail
+                                      ST::string t = ST::string::from_validated(std::move(cb));
+                                      auto expect = [&](const char *call, long long got, long long want) {
+                                          VF_COUNT("validated");
+                                          if (got != want)
+                                              c.fail(strf("huge-text:%s", call), strf("text of %zu characters '0': %s returned %lld, expected %lld", L, call, got, want));
+                                      };
+                                      const long long hx = (long long)(L / 2), b6 = (long long)(L / 4 * 3);
+                                      expect("hex_decode(null-output):length", ST::hex_decode(t, nullptr, 0), hx);
+                                      expect("base64_decode(null-output):length", ST::base64_decode(t, nullptr, 0), b6);
+                                      char small[8];
+                                      expect("hex_decode(buffer):capacity-8", ST::hex_decode(t, small, sizeof small), -1);
+                                      expect("base64_decode(buffer):capacity-8", ST::base64_decode(t, small, sizeof small), -1);
+                                      hugestr::LazyBytes out((size_t)b6 + 16);
+                                      if (!out.p) return;
+                                      expect("hex_decode(buffer):capacity-one-short", ST::hex_decode(t, out.p, (size_t)hx - 1), -1);
+                                      expect("base64_decode(buffer):capacity-one-short", ST::base64_decode(t, out.p, (size_t)b6 - 1), -1);
+                                      if (full) {
+                                          // '0' '0' decodes to 0x00; "0000" decodes to D3 4D 34: checked at both ends and across 2^31
+                                          expect("hex_decode(buffer):exact-capacity", ST::hex_decode(t, out.p, (size_t)hx), hx);
+                                          VF_COUNT("validated");
+                                          if (out.p[0] != 0 || out.p[hx - 1] != 0 || out.p[(size_t(1) << 31) - 1] != 0)
+                                              c.fail("huge-text:hex_decode(buffer):bytes", "decoded bytes of a text of '0' characters are not zero");
+                                          expect("base64_decode(buffer):exact-capacity", ST::base64_decode(t, out.p, (size_t)b6), b6);
+                                          VF_COUNT("validated");
+                                          const unsigned char *u = (const unsigned char *)out.p;
+                                          size_t q = ((size_t(1) << 31) / 3) * 3;
+                                          if (u[0] != 0xD3 || u[1] != 0x4D || u[2] != 0x34 || u[b6 - 1] != 0x34 || u[q] != 0xD3 || u[q + 2] != 0x34)
+                                              c.fail("huge-text:base64_decode(buffer):bytes", "decoded bytes of a text of '0' characters are not D3 4D 34 ...");
+                                      }
+                                  });
+                                  if (!o.ok()) c.fail(strf("huge-text:%s", vf::outkind_name(o.kind)), o.str());
+                                  vf::huge_reset();
+                                  c.nontrivial();
+                              },
+                              [](uint64_t i) { return std::string(i ? "text of 2^32+4 characters" : "text of 2^32 characters"); });
+        st.case_timeout_s = 600;
+    }
+#endif
     vf_early::add_stage(plan);
 }
 
